@@ -437,14 +437,13 @@ impl SubscriptionActor {
         // is free, a new subscription may register under it, and removing the entry by name
         // after that would unregister the new one.
         self.push_registry.set(self.info.name.clone(), None);
+        #[cfg(deltio_verif)]
+        crate::verif::sync_point("s.del.registry", self.internal_id as u64);
 
         self.delegate.delete(&self.info.name);
         self.observer.notify_deleted();
         self.outstanding.clear();
         self.backlog.clear();
-
-        #[cfg(deltio_verif)]
-        crate::verif::sync_point("s.del.registry", self.internal_id as u64);
         #[cfg(deltio_verif)]
         crate::verif::emit("s.del1", |_| serde_json::json!({"si": self.internal_id}));
 
